@@ -441,18 +441,18 @@ impl Property for C10 {
         vec![
             // widths 1..=8 of u8 and 1..=16 of u16, from 0..=24: every (to, len) in [0,24]^2
             Segment::enumerated("copy-exhaustive-u8-u16", (8 + 16) * 25, &[0xF0]),
-            Segment::random("copy", tier.pick(60_000, 800_000), &[0], 8, 40),
-            Segment::random("apply_in_place", tier.pick(30_000, 400_000), &[1], 8, 40),
-            Segment::random("reset", tier.pick(10_000, 150_000), &[2], 8, 40),
-            Segment::random("bitvec-bulk", tier.pick(10_000, 150_000), &[3], 8, 60),
-            Segment::random("try_chunks_mut", tier.pick(30_000, 400_000), &[4], 8, 40),
-            Segment::random("get_unaligned", tier.pick(20_000, 300_000), &[5], 8, 40),
+            Segment::random("copy", tier.pick(480_000, 16_000_000), &[0], 8, 40),
+            Segment::random("apply_in_place", tier.pick(240_000, 8_000_000), &[1], 8, 40),
+            Segment::random("reset", tier.pick(80_000, 3_000_000), &[2], 8, 40),
+            Segment::random("bitvec-bulk", tier.pick(80_000, 3_000_000), &[3], 8, 60),
+            Segment::random("try_chunks_mut", tier.pick(240_000, 8_000_000), &[4], 8, 40),
+            Segment::random("get_unaligned", tier.pick(160_000, 6_000_000), &[5], 8, 40),
             // the parallel variants split only above 2 * RAYON_MIN_LEN = 200000 words
             Segment::enumerated("parallel-variants-on-large-vectors", tier.pick(12, 60), &[0xF1]),
         ]
     }
     fn rule(&self) -> &'static str {
-        "cases decoded from bytes, vectors filled with non-periodic contents (field i = hash(i) masked): (a) copy(from,dst,to,len) for the six word types, generated widths, lengths, spare words, from<=src.len, to<=dst.len, len up to usize::MAX/128, against the element loop on a clone, all of dst compared, src unchanged; plus the complete enumeration for u8 (widths 1..8) and u16 (widths 1..16) with src.len=dst.len=24 over every (from,to,len) in [0,24]^3; (b) apply_in_place with a recording closure on fresh vectors and vectors with spare words (after resize/clear+push/new_unaligned): exactly len calls, in index order, on the current values, results stored, over-wide result must panic; (c) reset/par_reset/reset_atomic/par_reset_atomic and BitVec fill/par_fill/flip/par_flip/reset/par_reset/count_ones/par_count_ones and the atomic twins against per-element loops; (d) try_chunks_mut(c>=1): Ok exactly when len<=c or c*width is a multiple of W::BITS, chunk count/lengths/reads, writes land on exactly the corresponding elements; (e) get_unaligned(i)==get(i) on new_unaligned vectors for widths <= BITS-6, BITS-4, BITS. Non-trivial: the operation touches at least 2 words; distinct = distinct hash of the decoded case."
+        "cases decoded from bytes, vectors filled with non-periodic contents (field i = hash(i) masked): (a) copy(from,dst,to,len) for the six word types, generated widths, lengths, spare words, from<=src.len, to<=dst.len, len up to usize::MAX/128, against the element loop on a clone, all of dst compared, src unchanged; plus the complete enumeration for u8 (widths 1..8) and u16 (widths 1..16) with src.len=dst.len=24 over every (from,to,len) in [0,24]^3; (b) apply_in_place with a recording closure on fresh vectors and vectors with spare words (after resize/clear+push/new_unaligned): exactly len calls, in index order, on the current values, results stored, over-wide result must panic; (c) reset/par_reset/reset_atomic/par_reset_atomic and BitVec fill/par_fill/flip/par_flip/reset/par_reset/count_ones/par_count_ones and the atomic twins against per-element loops; (d) try_chunks_mut(c>=1): Ok exactly when len<=c or c*width is a multiple of W::BITS, chunk count/lengths/reads, writes land on exactly the corresponding elements; (e) get_unaligned(i)==get(i) on new_unaligned vectors for widths <= BITS-6, BITS-4, BITS. (f) the parallel variants (par_count_ones, par_flip, par_fill, par_reset, atomic twins, BitFieldVec par_reset/par_reset_atomic) on 12.8-64 Mbit vectors, i.e. above the 2 x 100000-word threshold below which rayon does not split them. Non-trivial: the operation touches at least 2 words; distinct = distinct hash of the decoded case."
     }
     fn run(&self, data: &[u8], cx: &mut Ctx) -> R {
         let (mode, rest) = data.split_first().unwrap_or((&0, &[]));
